@@ -225,6 +225,13 @@ func cmdCheck(args []string) {
 			report(p, " no-failing-input-found")
 		}
 	}
+	for _, k := range sortedKeys(renamedFields) {
+		n := "renamed field: " + k
+		if !noteSet[n] {
+			noteSet[n] = true
+			notes = append(notes, n)
+		}
+	}
 	// type-level obligations
 	writerObls, writerFails := eng.checkWriters(*prop)
 	for _, f := range writerFails {
